@@ -84,6 +84,8 @@ structure Clean (f : Api) : Prop where
   outsFresh : ∀ w args o, o ∈ (f w args).outs → w.heap.length ≤ o.arr ∧ o.arr ∉ (f w args).world.owned
   ownedFresh : ∀ w args a, a ∈ (f w args).world.owned → a ∈ w.owned ∨ w.heap.length ≤ a
   ownedKept : ∀ w args a, a ∈ w.owned → a ∈ (f w args).world.owned
+  outsValid : ∀ w args o, o ∈ (f w args).outs → o.arr < (f w args).world.heap.length
+  ownedValid : ∀ w args, (∀ a ∈ w.owned, a < w.heap.length) → ∀ a ∈ (f w args).world.owned, a < (f w args).world.heap.length
 
 /-- the library's state: contents of the owned arrays -/
 def World.ownedContents (w : World) : List (Nat × Bytes) := w.owned.map fun a => (a, w.heap.array a)
